@@ -183,6 +183,17 @@ payload!(P24A16, 20, 16); // 32 bytes, align 16: boxed because of alignment
 payload!(P64A64, 20, 64); // 64, align 64
 payload!(P200, 196, 4); // 200
 payload!(P136A8, 132, 8);
+payload!(P8A16, 4, 16); // 16 bytes: small enough for inline storage, but over-aligned for it
+payload!(P128A128, 20, 128);
+payload!(P4096A4096, 20, 4096); // page-aligned
+payload!(P5000, 4996, 8); // larger than a bag's whole buffer
+
+// closures without any captured state (zero-sized): their identity comes from a const parameter
+static ZST_IDS: [std::sync::atomic::AtomicU32; 8] = [const { std::sync::atomic::AtomicU32::new(u32::MAX) }; 8];
+fn zst_run<const K: usize>() {
+    let id = ZST_IDS[K].load(std::sync::atomic::Ordering::SeqCst);
+    on_run(id, true, true);
+}
 
 fn on_run(id: u32, intact: bool, inline: bool) {
     let me = sched::tid();
@@ -250,6 +261,35 @@ fn defer_sized(guard: &Guard, by: usize, class: u8) {
             let p = $t::new(id);
             unsafe { circ::verif::defer(guard, move || on_run(p.id, p.check(), $inline)) }
         }};
+    }
+    if class >= 224 {
+        // the rarer shapes
+        match class % 6 {
+            0 => return go!(P8A16, false),
+            1 => return go!(P128A128, false),
+            2 => return go!(P4096A4096, false),
+            3 => return go!(P5000, false),
+            _ => {
+                // a zero-sized closure, if one of the eight identities is still unused in this case
+                macro_rules! z {
+                    ($k:expr) => {
+                        if ZST_IDS[$k].compare_exchange(u32::MAX, id, std::sync::atomic::Ordering::SeqCst, std::sync::atomic::Ordering::SeqCst).is_ok() {
+                            let f = zst_run::<$k>;
+                            debug_assert_eq!(std::mem::size_of_val(&f), 0);
+                            return unsafe { circ::verif::defer(guard, f) };
+                        }
+                    };
+                }
+                z!(0);
+                z!(1);
+                z!(2);
+                z!(3);
+                z!(4);
+                z!(5);
+                z!(6);
+                z!(7);
+            }
+        }
     }
     match class % 9 {
         0 => go!(P4, true),
@@ -467,7 +507,7 @@ impl Eth {
         match op.k {
             EK::Nop => {}
             EK::Pin => {
-                if self.guards.len() < 3 {
+                if self.guards.len() < 8 {
                     what = "pin";
                     log(format!("t{}:pin", self.tid));
                     let g = cs();
@@ -1008,7 +1048,7 @@ fn run_private(case: &EbrCase) -> Report {
         match op.k {
             EK::Pin => {
                 if let Some(hd) = &handles[h] {
-                    if guards[h].len() < 3 {
+                    if guards[h].len() < 8 {
                         guards[h].push(hd.pin());
                         if guards[h].len() == 1 {
                             next += 1;
